@@ -74,13 +74,17 @@ func runC17(c *harness.Case) {
 	}
 	defer eng.Close()
 	var kv storage.KvStorage = eng.KV
-	var raceHook func(kind string, key []byte) // set below: placement of a client update inside the expiry
+	var raceHook func(kind string, key []byte)        // set below: placement of a client update inside the expiry
+	var faultHook func(kind string, key []byte) error // set below: one storage error on the expiry's removal of an index record
 	if noTTL || (base == "tikv" && mode != "native") {
 		w := harness.NewWrap(eng.KV)
 		w.NoTTL = noTTL
 		w.DelFault = func(kind string, key []byte) error {
 			if raceHook != nil {
 				raceHook(kind, key)
+			}
+			if faultHook != nil {
+				return faultHook(kind, key)
 			}
 			return nil
 		}
@@ -216,8 +220,25 @@ func runC17(c *harness.Case) {
 			}
 		}
 	}
+	// or: the engine fails the removal of one old event's index record once (a transient storage error)
+	faulted := keys[0]
+	faultFired := false
+	if !control && c.Index%4 == 2 {
+		faultHook = func(kind string, key []byte) error {
+			raw, rev, derr := coderC.Decode(key)
+			if faultFired || derr != nil || rev != 0 || string(raw) != faulted.key {
+				return nil
+			}
+			faultFired = true
+			hist = append(hist, "    (injected: the removal of this event's index record fails once with a storage error)")
+			return harness.ErrInjected
+		}
+	}
 	tEnd := compact("second")
-	raceHook = nil
+	raceHook, faultHook = nil, nil
+	if faultFired {
+		c.Stat("storage_errors_injected_into_expiry", 1)
+	}
 	if racedDone {
 		c.Stat("updates_placed_inside_expiry", 1)
 	}
